@@ -281,7 +281,7 @@ def case_dense(case):
     for b in case['blocks']:
         n = b['n']
         M = np.array([[gi(x) for x in row] for row in b['A']], dtype=complex).reshape(n, n)
-        A[o:o + n, o:o + n] = M / b['s']
+        A[o:o + n, o:o + n] = M / (b['s'] * case.get('ds', 1))      # s ds is a power of two: exact
         o += n
     return A
 
